@@ -13,8 +13,8 @@ import (
 // C16: loss filter. Oracle: chance<=0 forwards all, >=100 none, else dropped count within 6 sigma of n*p;
 // forwarded chunks are an in-order, duplicate-free, unmodified subsequence of the injected ones.
 func runLoss(tier string, seed int64, shard, nshard int, r *res.Result) {
-	r.Rule = "streams of n datagrams (sizes 0..1500, unique ids) injected into a LossFilter in front of a recording sink NIC; chances incl. out-of-range values; oracle: deterministic ends, 6-sigma binomial bound in between, forwarded = in-order duplicate-free unmodified subsequence (same chunk object, same addresses, same payload hash); distinct = (chance, stream) pairs"
-	r.Assumptions = []string{"math/rand global source cannot be seeded from outside: verdict for 0<chance<100 is statistical (false-alarm probability about 2e-9 per stream)"}
+	r.Rule = "streams of n datagrams (sizes 0..1500, unique ids) injected into a LossFilter in front of a recording sink NIC; chances incl. out-of-range values; oracle: deterministic ends, 6-sigma binomial bound in between for the whole stream and for every k-th-datagram sub-stream (k = 2,3,4,5,8: what one of k interleaved flows sees), forwarded = in-order duplicate-free unmodified subsequence (same chunk object, same addresses, same payload hash); distinct = (chance, stream) pairs"
+	r.Assumptions = []string{"math/rand global source cannot be seeded from outside: verdict for 0<chance<100 is statistical (false-alarm probability about 2e-9 per stream or sub-stream, 23 bounds per chance value)"}
 	// every chance value 0..100 plus out-of-range ones: a bias may exist for particular values only
 	chances := []int{-5, 101, 250}
 	for c := 0; c <= 100; c++ {
@@ -57,6 +57,7 @@ func runLoss(tier string, seed int64, shard, nshard int, r *res.Result) {
 			// subsequence check
 			j := 0
 			bad := ""
+			fwd := make([]bool, n)
 			for _, g := range got {
 				for j < len(sent) && sent[j].Ptr != g.Ptr {
 					j++
@@ -69,6 +70,7 @@ func runLoss(tier string, seed int64, shard, nshard int, r *res.Result) {
 					bad = fmt.Sprintf("forwarded chunk tag=%s was modified", g.Tag)
 					break
 				}
+				fwd[j] = true
 				j++
 			}
 			if bad != "" {
@@ -94,6 +96,29 @@ func runLoss(tier string, seed int64, shard, nshard int, r *res.Result) {
 					r.Violate("loss:rate", fmt.Sprintf("chance=%d dropped %d of %d (expected %.0f +- %.0f)", ch, dropped, n, float64(n)*p, tol), map[string]interface{}{"chance": ch, "n": n})
 				}
 				r.Count("statistical_streams", 1)
+				// every k-th datagram (what one of k interleaved flows sees) is a stream too: the same bound holds for each
+				// residue class of the position, for k = 2, 3, 4, 5, 8 (22 classes; 6 sigma each)
+			classes:
+				for _, k := range []int{2, 3, 4, 5, 8} {
+					cnt := make([]int, k)
+					drp := make([]int, k)
+					for i := 0; i < n; i++ {
+						cnt[i%k]++
+						if !fwd[i] {
+							drp[i%k]++
+						}
+					}
+					for c := 0; c < k; c++ {
+						sd := math.Sqrt(float64(cnt[c]) * p * (1 - p))
+						dv := math.Abs(float64(drp[c]) - float64(cnt[c])*p)
+						r.Max("max_sigma_x100_substreams", int64(100*dv/sd))
+						r.Count("substreams_checked", 1)
+						if dv > 6*sd+1 {
+							r.Violate("loss:rate-substream", fmt.Sprintf("chance=%d: of the datagrams at positions = %d mod %d, %d of %d were dropped (expected %.0f +- %.0f): drops depend on the position in the stream", ch, c, k, drp[c], cnt[c], float64(cnt[c])*p, 6*sd+1), map[string]interface{}{"chance": ch, "n": n})
+							break classes
+						}
+					}
+				}
 			}
 			if idx <= 3 {
 				r.Sample(map[string]interface{}{"chance": ch, "n": n, "dropped": dropped})
